@@ -220,7 +220,7 @@ def _const(t: str) -> str:
 
 def pred_query(p, top=True) -> str:
     """pandas query string; compound children are parenthesised, the top level is not (the way a
-    user would write `a > 2 or b < 1`)"""
+    user would write `a > 2 or b < 1` - the shape that exposed F23)"""
     if p[0] == "T":
         return ""
     if p[0] == "a":
@@ -686,13 +686,22 @@ def run_under_seeds(case, seeds) -> dict:
         if obs is None:
             obs = o
         else:
-            a, b = dict(obs), dict(o)
-            a.pop("hashseed", None), b.pop("hashseed", None)
+            a, b = _seed_canon(obs), _seed_canon(o)
             others.append({"hashseed": s, "same": json.dumps(a, sort_keys=True) == json.dumps(b, sort_keys=True),
                            "first_diff": None if a == b else _first_diff(a, b)})
     obs["seeds"] = list(seeds)
     obs["other_seeds"] = others
     return obs
+
+
+def _seed_canon(o):
+    """what must not depend on the hash seed: everything observed, exception classes reduced to ok / err"""
+    o = json.loads(json.dumps(o))
+    o.pop("hashseed", None)
+    for e in o.get("log", []):
+        if isinstance(e.get("out"), str) and e["out"].startswith("err"):
+            e["out"] = "err"
+    return o
 
 
 def _first_diff(a, b):
@@ -752,6 +761,13 @@ class TableProp(Prop):
         if len(case.get("seeds") or []) > 1:
             for s in case["seeds"]:
                 yield dict(case, seeds=[s])
+        used = _used_views(case)
+        for ci, c in enumerate(case["comps"]):
+            for vi, v in enumerate(c.get("views", [])):
+                if v["id"] not in used:
+                    comps = [dict(x) for x in case["comps"]]
+                    comps[ci]["views"] = c["views"][:vi] + c["views"][vi + 1:]
+                    yield dict(case, comps=comps)
 
     def sample_view(self, case, obs):
         log = obs.get("log", [])
@@ -759,6 +775,23 @@ class TableProp(Prop):
                 "pop": case["pop"], "n_ops": len(case.get("ops") or []), "hooks": sorted(case.get("hooks") or {}),
                 "log_head": [{k: v for k, v in e.items() if k not in ("table", "before", "frame")} for e in log[:6]],
                 "final": obs.get("final")}
+
+
+def _used_views(case) -> set:
+    used = set()
+
+    def scan(x):
+        if isinstance(x, dict):
+            for k, v in x.items():
+                if k in ("view", "parent") and isinstance(v, int):
+                    used.add(v)
+                else:
+                    scan(v)
+        elif isinstance(x, list):
+            for y in x:
+                scan(y)
+    scan([case.get("ops"), case.get("hooks"), case.get("init")])
+    return used
 
 
 def walk(obs):
